@@ -261,8 +261,14 @@ class Assembler:
                                 blk.cur.loop_iters[key_] = opt[5:]
                         elif d == 'tail':
                             cur_field = ('tail',)
-                        elif d.startswith('closure '):
-                            cur_field = ('closure', int(d[8:].strip()))
+                        elif d.startswith('closure? ') or d.startswith('closure '):
+                            # a closure is addressed by its ordinal (`closure 2`) or by its parameter list written as it
+                            # stands in the source (`closure /|global_names|/`, `closure /||/`); `closure?` = optional
+                            opt_ = d.startswith('closure? ')
+                            key_ = _loop_key(d[9:] if opt_ else d[8:])
+                            cur_field = ('closure', key_)
+                            if opt_:
+                                blk.cur.optional.add(('closure', key_))
                         elif d.startswith('iter? ') or d.startswith('iter '):
                             opt_ = d.startswith('iter? ')
                             n_, nm_ = (d[6:] if opt_ else d[5:]).rsplit(None, 1)
@@ -402,6 +408,9 @@ class Assembler:
             self.meta['timeout'] = int(parts[1])
         elif k == 'rlimit':
             self.meta['rlimit'] = parts[1]
+        elif k == 'only':
+            # `//# only C06 <regex>`: for that property only the obligations whose name matches count (the unit still runs whole)
+            self.meta.setdefault('only', {})[parts[1]] = ' '.join(parts[2:])
         else:
             self.meta.setdefault('other', []).append(d)
 
@@ -535,9 +544,20 @@ class Assembler:
                                 depth -= 1
                             pe += 1
                     ctext = None
-                    if tgt and closure_no in tgt.closures:
-                        seen_closures.add(closure_no)
-                        ctext = tgt.closures[closure_no]
+                    chdr = ''.join(text[st[k].start:st[pe].end].split())
+                    ckey = None
+                    if tgt:
+                        if closure_no in tgt.closures:
+                            ckey = closure_no
+                        else:
+                            for key_ in tgt.closures:
+                                if isinstance(key_, str) and ''.join(key_.split()) == chdr:
+                                    if key_ in seen_closures:
+                                        raise AnchorLost('closure header %s occurs more than once in fn %s (%s)' % (key_, tgt.name, blk.relpath))
+                                    ckey = key_
+                    if ckey is not None:
+                        seen_closures.add(ckey)
+                        ctext = tgt.closures[ckey]
                     # R8 (opt-in, `//@ closure-params-to-let`): a closure parameter that is a destructuring pattern,
                     # `|S { f, .. }| body`, is moved into a `let` at the head of the body:
                     # `|__rbv_pN| { let S { f, .. } = __rbv_pN; body }` -- the definition of a pattern parameter
@@ -671,8 +691,8 @@ class Assembler:
                 blk.eta_found[ctor] = blk.eta_found.get(ctor, 0) + found
             if tgt:
                 for n in tgt.closures:
-                    if n not in seen_closures:
-                        raise AnchorLost('fn %s has no closure #%d (found %d) in %s' % (tgt.name, n, closure_no, blk.relpath))
+                    if n not in seen_closures and ('closure', n) not in tgt.optional:
+                        raise AnchorLost('fn %s has no closure #%s (found %d) in %s' % (tgt.name, n, closure_no, blk.relpath))
                 for n in tgt.loops:
                     if n not in seen_loops and ('loop', n) not in tgt.optional:
                         raise AnchorLost('fn %s has no loop #%s (found %d) in %s' % (tgt.name, n, loop_no, blk.relpath))
